@@ -1488,6 +1488,8 @@ pub fn run_property(ctx: &mut Ctx) {
         "C19" => {
             suite_text_valid(ctx, "text-valid", k(1200, 60000));
             suite_run(ctx, "run", k(600, 30000));
+            // tests loaded from a .dig file: lines relative to the start of the test's own source text
+            crate::dig::suite_dig(ctx, "dig", k(800, 20000));
         }
         "C20" => {
             suite_layout(ctx, "layout", k(800, 40000));
